@@ -455,6 +455,8 @@ class Engine(CoreMixin, ExprMixin, CallMixin, StmtMixin, BuiltinMixin):
             btext = "\n".join(body)
         if "MEM-EX" in (getattr(contract, "lemmas", []) or []):
             parts.append(smt.spec_module("mod_mem"))
+        if "IS-MEM-NTH" in (getattr(contract, "lemmas", []) or []):
+            parts.append(smt.spec_module("mod_ismem_nth"))
         if "DICT-ITEM" in (getattr(contract, "lemmas", []) or []):
             parts.append(smt.spec_module("mod_dict"))
         if "is_json" in btext:
@@ -558,15 +560,18 @@ class Engine(CoreMixin, ExprMixin, CallMixin, StmtMixin, BuiltinMixin):
             rep, o = ro
             o.result = smt.solve_text(text_of(ro), timeout=getattr(self, "cover_timeout", 1.0), keep_dir=keep_dir, name=o.name, order=["z3-5.1.0"], quick_first=False)
             return ro
-        for ro in work:
-            if getattr(ro[1], "oos", False):
-                ro[1].result = smt.Result("unknown", "", 0.0, "path out of subset", [("none", "out-of-subset", 0.0)], "")
+        # a path that leaves the subset matters only if it is feasible: its obligation (goal false) gets the quick phase, and
+        # is discharged when the path condition is refuted (dead path); otherwise it stays "out of subset" (never a verdict)
         work_all = work
+        oos = [ro for ro in work if getattr(ro[1], "oos", False)]
         work = [ro for ro in work if not getattr(ro[1], "oos", False)]
         obls = [ro for ro in work if ro[1].kind != "cover"]
         covers = [ro for ro in work if ro[1].kind == "cover"]
         with ThreadPoolExecutor(jobs) as pool:
-            list(pool.map(quick, obls))
+            list(pool.map(quick, obls + oos))
+        for ro in oos:
+            if ro[1].result.status != "unsat":
+                ro[1].result = smt.Result("unknown", "", 0.0, "path out of subset", [("none", "out-of-subset", 0.0)] + list(ro[1].result.attempts), "")
         hard = [ro for ro in obls if ro[1].result.status not in ("sat", "unsat")]
         with ThreadPoolExecutor(max(1, min(5, jobs // 3))) as pool:
             list(pool.map(full, hard))
